@@ -298,3 +298,43 @@ Example C10_example_memsync :
   /\ memsync_case (mkNetlist [mkWire 2 2 KWire; mkWire 3 4 KWire]
                              [mkNet (OpMemRd 7) [2] 3] [mkMem 7 2 4 None]) [7] = [[2; 2]].
 Proof. vm_compute. repeat split; reflexivity. Qed.
+
+(* ---- the connectivity checks of Block.sanity_check, REGENERATED from the current source
+   (Gen/SanityBlock.v: the sets tested by `if len(X) > 0: raise` between net_connections() and
+   sanity_check_memory_sync, translated statement by statement into list algebra) ---- *)
+From PyRTL Require Import Netlist.SanityBlockGen.
+
+(* the source's "declared but not connected" and "used but never driven" sets are empty exactly when
+   the corresponding conjuncts of the hand model -- over which fault_declared_unconnected and
+   fault_read_never_driven are stated -- hold; its "unknown wires" set is empty exactly when every
+   wire a net mentions is declared.  Weakening one of these checks in core.py breaks this proof. *)
+Theorem C10_source_connectivity_agrees_with_model : forall nl,
+  emptyb (nth 0 (src_guards nl) []) = forallb (declared nl) (dests_of (nets nl) ++ args_of (nets nl))
+  /\ emptyb (nth 1 (src_guards nl) []) =
+       forallb (fun x => kind_is_input_or_const nl (wname x)
+                         || mem_in (wname x) (dests_of (nets nl))
+                         || mem_in (wname x) (args_of (nets nl))) (wires nl)
+  /\ emptyb (nth 2 (src_guards nl) []) =
+       forallb (fun w => kind_is_input_or_const nl w || mem_in w (dests_of (nets nl))) (args_of (nets nl)).
+Proof.
+  intro nl. split; [exact (src_unknown_iff nl)|]. split; [exact (src_unconnected_iff nl)|exact (src_undriven_iff nl)].
+Qed.
+Print Assumptions C10_source_connectivity_agrees_with_model.
+
+Theorem C10_source_connectivity_rejects : forall nl,
+  src_guards_pass nl = false -> sanity_block nl = false.
+Proof. exact src_guard_fires_rejected. Qed.
+Print Assumptions C10_source_connectivity_rejects.
+
+Theorem C10_accepted_passes_source_connectivity : forall nl,
+  sanity_block nl = true -> src_guards_pass nl = true.
+Proof. exact accepted_passes_src_guards. Qed.
+Print Assumptions C10_accepted_passes_source_connectivity.
+
+(* Non-vacuity: on the example design no regenerated set is non-empty; removing the net that drives
+   wire 6 makes exactly the third set (used but never driven) non-empty; an extra declared wire
+   makes exactly the second one non-empty. *)
+Example C10_example_source_connectivity :
+  block_guard_case ex_nl = [1; 1; 1]
+  /\ block_guard_case (mkNetlist (wires ex_nl ++ [mkWire 99 2 KWire]) (nets ex_nl) (mems ex_nl)) = [1; 0; 1].
+Proof. vm_compute. split; reflexivity. Qed.
